@@ -2,12 +2,12 @@
 # usage: tools/replay.sh <pkgdir relative to repo> <test file in /verif/replay/...> <TestRegex> [repo]
 # Runs an in-package test against the real code by overlay (nothing is written to the repo).
 set -u
-pkg=$1; file=$2; re=$3; repo=${4:-/repo}
+pkg=$1; file=$2; re=$3; repo=${4:-/repo}; extra=${5:-}
 export GOFLAGS=-mod=mod GOPROXY=off GOSUMDB=off GOTOOLCHAIN=local
 tmp=$(mktemp -d /tmp/verif-replay.XXXXXX)
 trap 'rm -rf "$tmp"' EXIT
 target="$repo/$pkg/zz_verif_replay_test.go"
 [ "$pkg" = "." ] && target="$repo/zz_verif_replay_test.go"
 printf '{"Replace":{"%s":"%s"}}' "$target" "$(realpath "$file")" > "$tmp/ov.json"
-cd "$repo" && go test -overlay "$tmp/ov.json" -vet=off -count=1 -timeout 120s -run "$re" "./$pkg/" 2>&1 | grep -v WARNING
+cd "$repo" && go test $extra -overlay "$tmp/ov.json" -vet=off -count=1 -timeout 120s -run "$re" "./$pkg/" 2>&1 | grep -v WARNING
 exit ${PIPESTATUS[0]}
